@@ -7,6 +7,7 @@ equality incl. class, dates, previous date, value kind and dtype — never the l
 refusal of every one-link-removed / shifted incremental triangle and of rows with inconsistent
 fields (the class `TriangleError` is part of the property), and identity on the target basis.
 """
+import copy
 import datetime
 import json
 import multiprocessing
@@ -19,6 +20,7 @@ import common
 from common import w_cells, canon_cell, call
 import gen
 from bermuda import Triangle, Cell, CumulativeCell, IncrementalCell
+from bermuda.utils import to_cumulative as f_to_cumulative, to_incremental as f_to_incremental
 
 ONE = datetime.timedelta(days=1)
 VKINDS = ["int", "float", "iarr", "farr"]
@@ -35,7 +37,7 @@ def dump(res):
 
 # ---- generator ------------------------------------------------------------------------------
 
-def rand_cumulative(rng):
+def rand_cumulative(rng, force_kind=None):
     """cells (shuffled) of a valid cumulative triangle: 1-4 slices, regular / ragged / day-level
     periods, every field one kind (int / dyadic float / int64 array / float64 array) along the
     triangle, `earned_premium` present or not, None-free, one key set per triangle."""
@@ -51,6 +53,8 @@ def rand_cumulative(rng):
         fields.insert(rng.randrange(0, len(fields) + 1), "earned_premium")
     mode = rng.choice(["one", "one", "perfield"])
     base_kind = rng.choice(VKINDS)
+    if force_kind:
+        mode, base_kind = "one", force_kind
     kinds = {f: (base_kind if mode == "one" else rng.choice(VKINDS)) for f in fields}
     n_samples = rng.choice([1, 2, 4])
     ep_const = rng.random() < 0.5   # earned premium often constant along a row, not always
@@ -211,6 +215,193 @@ def field_variants(rng, cells, incremental):
             new = type(c)(c.period_start, c.period_end, c.evaluation_date, vals, c.metadata)
         out.append((f"fields/{how}", cells[:i] + [new] + cells[i + 1:]))
     return out
+
+
+
+# ---- sequence stream: state carried between calls -------------------------------------------
+
+def clone_cells(cells):
+    """fresh cell objects with fresh (deep-copied) values: nothing shared with `cells`"""
+    out = []
+    for c in cells:
+        vals = copy.deepcopy(c.values)
+        if isinstance(c, IncrementalCell):
+            out.append(IncrementalCell(c.period_start, c.period_end, c.prev_evaluation_date,
+                                       c.evaluation_date, vals, c.metadata))
+        else:
+            out.append(type(c)(c.period_start, c.period_end, c.evaluation_date, vals, c.metadata))
+    return out
+
+
+def share_arrays(rng, cells):
+    """rebuild cumulative cells so that several cells hold the SAME ndarray object under a field
+    (within a row, across rows and across slices); `earned_premium` shared by whole rows"""
+    pool = {}
+    out = []
+    for c in cells:
+        vals = {}
+        for k, v in c.values.items():
+            if isinstance(v, np.ndarray):
+                seen = pool.setdefault((k, v.shape, v.dtype.str), [])
+                if seen and rng.random() < (0.7 if k == "earned_premium" else 0.4):
+                    v = rng.choice(seen)
+                else:
+                    seen.append(v)
+            vals[k] = v
+        out.append(type(c)(c.period_start, c.period_end, c.evaluation_date, vals, c.metadata))
+    return out
+
+
+def scramble(tri):
+    """mutate a RESULT in place: arrays zeroed (not `earned_premium`: the conversions carry that
+    object over from their input by design), dicts edited, the cell list reordered and shortened"""
+    for c in tri.cells:
+        for k, v in list(c.values.items()):
+            if isinstance(v, np.ndarray) and k != "earned_premium":
+                v *= 0
+        c.values["zz_injected"] = 1
+    tri.cells.sort(reverse=True)
+    if len(tri.cells) > 1:
+        tri.cells.pop()
+
+
+def accessor_mismatch(tri):
+    """cached/derived accessors of `tri` vs values recomputed from its cells (None if all agree)"""
+    cells = list(tri.cells)
+    want = {
+        "is_incremental": bool(cells) and isinstance(cells[0], IncrementalCell),
+        "is_empty": len(cells) == 0,
+        "periods": sorted({c.period for c in cells}),
+        "evaluation_dates": sorted({c.evaluation_date for c in cells}),
+        "metadata": sorted({c.metadata for c in cells}),
+        "fields": sorted({k for c in cells for k in c.values}),
+        "n_slices": len({c.metadata for c in cells}),
+        "len": len(cells),
+    }
+    sizes = {v.size for c in cells for v in c.values.values() if isinstance(v, np.ndarray) and v.size > 1}
+    if len(sizes) <= 1:
+        want["num_samples"] = next(iter(sizes), 1)
+    got = {
+        "is_incremental": tri.is_incremental, "is_empty": tri.is_empty, "periods": tri.periods,
+        "evaluation_dates": tri.evaluation_dates, "metadata": tri.metadata, "fields": tri.fields,
+        "n_slices": len(tri.slices), "len": len(tri),
+    }
+    if "num_samples" in want:
+        got["num_samples"] = tri.num_samples
+    bad = {k: (repr(got[k])[:120], repr(want[k])[:120]) for k in want if got[k] != want[k]}
+    return bad or None
+
+
+def touch_accessors(tri):
+    return (tri.is_incremental, tri.is_empty, tri.periods, tri.evaluation_dates, tri.metadata, tri.fields,
+            len(tri.slices), tri.is_multi_slice, tri.has_consistent_currency)
+
+
+def sequence_case(ctx, rng, send, prime):
+    """one case of the sequence stream. Reference outputs come from conversions of FRESH objects (and
+    go to the model/Spec through `send`); every later call in the sequences must reproduce them."""
+    shared = rng.random() < 0.5
+    cells, info = rand_cumulative(rng, force_kind=rng.choice(["iarr", "farr"]) if shared or rng.random() < 0.3 else None)
+    if shared:
+        cells = share_arrays(rng, cells)
+    ctx.count(f"seq/shared_arrays={shared}")
+    ctx.count(f"seq/max_row={min(info['max_row'], 4)}")
+
+    def fresh_cum():
+        return Triangle(clone_cells(cells)) if not shared else Triangle(share_arrays(random.Random(7), clone_cells(cells)))
+
+    x_ref = Triangle(cells)
+    xw = w_cells(x_ref.cells)
+    case = {"cells": xw, "shared_arrays": shared}
+    ctx.case(digest=json.dumps(canon(xw), sort_keys=True), nontrivial=info["max_row"] > 1,
+             sample={"op": "sequence", **info, "shared_arrays": shared})
+
+    # (b) priming: the same functions on a DIFFERENT input first, in the same process
+    if prime is not None:
+        call(lambda: prime.to_incremental().to_cumulative())
+        call(lambda: prime.to_cumulative())
+    # references from fresh objects; the model and the Spec judge them
+    r = call(lambda: x_ref.to_incremental())
+    d_inc = dump(r)
+    send("toInc", xw, d_inc, "sequence: to_incremental (reference)")
+    if r[0] != "ok":
+        ctx.fail("sequence: to_incremental raised on a valid cumulative triangle", case, d_inc)
+        return x_ref
+    iw = d_inc["ok"]
+    r2 = call(lambda: Triangle(clone_cells(r[1].cells)).to_cumulative())
+    d_cum = dump(r2)
+    send("toCum", iw, d_cum, "sequence: to_cumulative (reference)")
+    send("rtCum", xw, d_cum, "sequence: to_cumulative(to_incremental(t)) (reference)")
+    if r2[0] != "ok" or canon(d_cum["ok"]) != canon(as_cum_wire(xw)):
+        ctx.fail("sequence: to_cumulative(to_incremental(t)) does not reproduce the original cells exactly", case, d_cum)
+        return x_ref
+    cw = d_cum["ok"]
+    inc_cells = list(r[1].cells)
+
+    def expect(tag, res, want, is_obj=None):
+        ctx.count(f"seq/{tag.split(':')[0]}")
+        ctx.case(digest=None)
+        d = dump(res)
+        if d.get("ok") is None or canon(d["ok"]) != canon(want):
+            ctx.fail(f"sequence [{tag}]: a repeated / reordered conversion on the same objects gives a different result",
+                     case, {"got": d, "want": want})
+            return False
+        if res[0] == "ok":
+            bad = accessor_mismatch(res[1])
+            if bad:
+                ctx.fail(f"sequence [{tag}]: accessors of the result disagree with its cells {bad}", case)
+                return False
+        return True
+
+    # A. cumulative object: identity first, then the other direction, twice, after scrambling, identity again
+    x = fresh_cum()
+    touch_accessors(x)                                        # (c) cached accessors read on the input first
+    ok = expect("A1:cum.to_cumulative (identity first)", call(lambda: x.to_cumulative()), xw)
+    a1 = call(lambda: x.to_incremental())
+    ok = expect("A2:then cum.to_incremental", a1, iw) and ok
+    ok = expect("A3:cum.to_incremental again", call(lambda: x.to_incremental()), iw) and ok
+    if a1[0] == "ok" and a1[1] is not x:
+        scramble(a1[1])
+    ok = expect("A4:cum.to_incremental after its first result was mutated", call(lambda: x.to_incremental()), iw) and ok
+    ok = expect("A5:cum.to_cumulative (identity) after conversions", call(lambda: x.to_cumulative()), xw) and ok
+    ok = expect("A6:function form utils.to_incremental(cum)", call(lambda: f_to_incremental(x)), iw) and ok
+    if w_cells(x.cells) != xw:
+        ctx.fail("sequence [A]: the input triangle changed during the sequence", case, {"now": w_cells(x.cells)})
+
+    # B. incremental object: identity first, then to_cumulative twice, after scrambling
+    y = Triangle(clone_cells(inc_cells))
+    touch_accessors(y)
+    expect("B1:inc.to_incremental (identity first)", call(lambda: y.to_incremental()), iw)
+    b1 = call(lambda: y.to_cumulative())
+    expect("B2:then inc.to_cumulative", b1, cw)
+    expect("B3:inc.to_cumulative again", call(lambda: y.to_cumulative()), cw)
+    if b1[0] == "ok" and b1[1] is not y:
+        scramble(b1[1])
+    expect("B4:inc.to_cumulative after its first result was mutated", call(lambda: y.to_cumulative()), cw)
+    expect("B5:inc.to_incremental (identity) after conversions", call(lambda: y.to_incremental()), iw)
+    expect("B6:function form utils.to_cumulative(inc)", call(lambda: f_to_cumulative(y)), cw)
+    if w_cells(y.cells) != iw:
+        ctx.fail("sequence [B]: the input triangle changed during the sequence", {"cells": iw}, {"now": w_cells(y.cells)})
+
+    # C. the other order, on fresh objects: convert first, identity afterwards, chain through results
+    x2 = fresh_cum()
+    c1 = call(lambda: x2.to_incremental())
+    expect("C1:fresh cum.to_incremental", c1, iw)
+    expect("C2:then cum.to_cumulative (identity)", call(lambda: x2.to_cumulative()), xw)
+    if c1[0] == "ok":
+        a = c1[1]
+        c3 = call(lambda: a.to_cumulative())
+        expect("C3:result.to_cumulative", c3, cw)
+        expect("C4:result.to_incremental (identity)", call(lambda: a.to_incremental()), iw)
+        expect("C5:result.to_cumulative again", call(lambda: a.to_cumulative()), cw)
+        if c3[0] == "ok" and c3[1] is not a:
+            c6 = call(lambda: c3[1].to_incremental())
+            expect("C6:back.to_incremental", c6, iw)
+            scramble(c3[1])
+            expect("C7:result.to_cumulative after its first result was mutated", call(lambda: a.to_cumulative()), cw)
+            if c6[0] == "ok":
+                expect("C8:chain continues from an earlier result", call(lambda: c6[1].to_cumulative()), cw)
+    return x_ref
 
 
 # ---- correspondence -----------------------------------------------------------------------
@@ -409,7 +600,17 @@ def run_stream(ctx, n_tri):
             ctx.fail("to_incremental(to_cumulative(u)) does not reproduce the complete incremental triangle u",
                      {"cells": uw}, {"back": d_b})
 
-    # 8. the empty triangle
+    # 8. the SEQUENCE stream (always on): state carried between calls on the same objects
+    n_seq = max(60, n_tri // 5) if not ctx.thorough else n_tri // 8
+    prime = None
+    for si in range(n_seq):
+        if enough():
+            break
+        if si % 150 == 149:
+            flush()
+        prime = sequence_case(ctx, rng, send, prime)
+
+    # 9. the empty triangle
     e = Triangle([])
     send("toInc", [], dump(call(lambda: e.to_incremental())), "to_incremental(empty)")
     send("toCum", [], dump(call(lambda: e.to_cumulative())), "to_cumulative(empty)")
@@ -470,7 +671,11 @@ if __name__ == "__main__":
              "every re-pointing of a link to an earlier non-adjacent evaluation date of the same row (quick: up to 4), "
              "re-pointings to dates of other rows/slices and prev-date swaps across rows (sampled) "
              "and three inconsistent-field variants per basis must raise TriangleError; plus directly generated complete "
-             "incremental triangles. distinct = distinct canonical input dump; non-trivial = some row has >= 2 cells",
+             "incremental triangles; plus the SEQUENCE stream (quick: 60 cases, half with cells sharing ndarray objects): "
+             "identity conversion first and then the other direction on the SAME object, each conversion twice, again "
+             "after the first result was mutated in place, conversions in both orders, chains through results, method "
+             "and function forms, a priming call on a different triangle, cached accessors read on inputs and checked "
+             "on outputs against their cells. distinct = distinct canonical input dump; non-trivial = some row has >= 2 cells",
         assumptions=["values are exactly representable (ints, dyadic rationals < 2^12 with 3 fractional bits): IEEE "
                      "subtraction/addition is exact, so exact rational arithmetic in the model is the same function",
                      "None-free rows, every field keeps one kind (int / float / int64 array / float64 array) and one "
